@@ -110,7 +110,7 @@ impl Prop for C03 {
                 if suite == "ed448" && n > 4 {
                     continue;
                 }
-                for kind in ["refresh-dealer", "refresh-dkg", "repair", "refresh-dkg-lowered-legacy"] {
+                for kind in ["refresh-dealer", "refresh-dkg", "repair", "refresh-dkg-lowered-legacy", "refresh-dkg-from-legacy"] {
                     for extra in [0u16, 1] {
                         if kind == "refresh-dkg-lowered-legacy" && t < 3 {
                             continue;
@@ -205,6 +205,11 @@ pub fn maintained<C: Suite>(grp: &Grp<C>, kind: &str, extra: u16, seed: &str) ->
         "refresh-dkg" => refresh_dkg::<C>(&root, &members, seed, *t).map(|nd| (nd.kps, nd.pkp, members.clone())),
         // an ATTEMPT to lower the threshold by running the distributed refresh with t - 1 while holding the
         // pre-3.0 public key package (no threshold in it); Err is the expected (correct) outcome
+        // an honest distributed refresh (same threshold) by participants holding the pre-3.0 public key package
+        "refresh-dkg-from-legacy" => {
+            let legacy = Node { t: *t, kps: grp.kps.clone(), pkp: PublicKeyPackage::<C>::new(grp.pkp.verifying_shares().clone(), *grp.pkp.verifying_key(), None), prev: None };
+            refresh_dkg::<C>(&legacy, &members, seed, *t).map(|nd| (nd.kps, nd.pkp, members.clone()))
+        }
         "refresh-dkg-lowered-legacy" => {
             let legacy = Node { t: *t, kps: grp.kps.clone(), pkp: PublicKeyPackage::<C>::new(grp.pkp.verifying_shares().clone(), *grp.pkp.verifying_key(), None), prev: None };
             refresh_dkg::<C>(&legacy, &members, seed, *t - 1).map(|nd| (nd.kps, nd.pkp, members.clone()))
@@ -357,6 +362,13 @@ fn drive<C: Suite>(o: &mut Outcome, tag: &str, ctx: &str, kps_all: &BTreeMap<Id<
         let r2 = C::w_aggregate_custom(&pkg, &corrupted, &grp.pkp, md());
         match (&r1, &r2) {
             (Err(e1), Err(e2)) => {
+                // a refusal, not a failed verification: the error says so, in every mode
+                if !matches!(e1, fc::Error::IncorrectNumberOfShares) {
+                    o.fail(
+                        format!("{tag}/coordinator-did-not-refuse-upfront"),
+                        format!("{ctx} mode={mn}: with {k} < {t} shares the coordinator must refuse with IncorrectNumberOfShares; got {e1:?}"),
+                    );
+                }
                 if !e1.culprits().is_empty() || !e2.culprits().is_empty() || e1 != e2 {
                     o.fail(
                         format!("{tag}/coordinator-did-not-refuse-upfront"),
